@@ -400,7 +400,7 @@ func init() {
 					return "positional-range", [2]int{2, 5}, [2]int{as[1].Required, as[1].RequiredMaximum}
 				}
 			case 6:
-				n := 1 + vi%4
+				n := vi % 5 // 0..4: a count of zero is a count like any other
 				fields = []reflect.StructField{sfield("Args", posInner, `positional-args:"yes"`)}
 				pi := reflect.StructOf([]reflect.StructField{sfield("A", strT, ""), sfield("R", reflect.TypeOf([]string{}), fmt.Sprintf(`required:"%d"`, n))})
 				fields = []reflect.StructField{sfield("Args", pi, `positional-args:"yes" required:"yes"`)}
@@ -601,7 +601,7 @@ func init() {
 		Body:       body,
 		Rule: "(i) every tag string of length <= 8 (quick) / <= 9 (thorough) over {a : \" \\ space LF}, alone and behind a well-formed long:\"opt\", classified by a reference tag grammar (accept / reject / grey); " +
 			"(ii) 9 option attributes x 15 values (blanks, quotes, backslashes, line breaks, tabs, multi-byte text, empty, colons) x 3 escape renderings (strconv.Quote, all-\\xNN, octal+raw) x 1..3 repetitions x 1..3 blanks; " +
-			"(iii) required/optional/hidden x 9 spellings x present/absent x short names of 0/1/2 characters incl. multi-byte; (iv) group name/namespace/env-namespace, command name + 0..3 aliases, descriptions, positional names, ranges and minimum counts x values x renderings; " +
+			"(iii) required/optional/hidden x 9 spellings x present/absent x short names of 0/1/2 characters incl. multi-byte; (iv) group name/namespace/env-namespace, command name + 0..3 aliases, descriptions, positional names, ranges and minimum counts (0..4) x values x renderings; " +
 			"(v) every pair of placements {top, plain subgroup, namespaced, doubly namespaced} x {same name, near miss, collision created by namespaces} x {long, short incl. non-ASCII} x {declared through NewParser, added with (*Group).AddGroup to an existing group, NewNamedParser with NamespaceDelimiter \"-\" set before AddGroup}; (vi) default tags on bool / []bool / *bool / []*bool / **bool / *[]bool / func() vs string types; " +
 			"oracle: exported model fields echo the attributes exactly, malformed tags => ErrTag, long short name => ErrShortNameTooLong, bool default => ErrInvalidTag, colliding names => ErrDuplicatedFlag, never a panic; distinct = distinct (part, cell, error class)",
 		Assumptions:  []string{"keys containing control characters or backslashes, and empty keys, are grey (no panic, any error typed)", "single-valued keys are repeated with the same value only", "falsy spellings false/no/0 do not set a mark on options (pinned by the repository's tests)"},
